@@ -8,7 +8,7 @@ from harness.common import T0, mem_places, mk_actor, run_async
 
 OPS = ["enqueue", "consume", "ack", "nack", "reject", "requeue", "queue_declare", "queue_flush", "queue_delete",
        "store_bucket", "get_bucket", "delete_bucket", "actor_run"]
-SUBS = ["async-all-args", "sync-subset", "raising", "slow", "extra-default-param", "none"]
+SUBS = ["async-all-args", "sync-subset", "raising", "slow", "extra-default-param", "none", "required-args"]
 
 
 _SRV = {}      # id(message broker) -> (backend, fake server), for the Redis / RabbitMQ variants
@@ -152,7 +152,8 @@ def h17(S, two_connections=None, backend="mem"):
             names = list(PARAMS[opn]) + (["result"] if name.startswith("after_") else [])
             if kind == "sync-subset":
                 names = names[:1]
-            sig = ", ".join(f"{n}=None" for n in names)
+            # the documented signatures: plain required parameters (kind "required-args"); the others give every parameter a default
+            sig = ", ".join(n if kind == "required-args" else f"{n}=None" for n in names)
             if kind == "extra-default-param":
                 sig = (sig + ", " if sig else "") + "unrelated='dflt'"
             body = f"    log_.append(({name!r}, dict({', '.join(f'{n}={n}' for n in names)})))\n"
@@ -225,7 +226,7 @@ def h17(S, two_connections=None, backend="mem"):
         S.cover("sync-subscriber-arguments")
         S.check("before-signal-carries-arguments-by-name", log[0][1] == {first: out["named"].get(first)},
                 info=f"{op}/{style}: sync subscriber received {log[0][1]!r}")
-    if sub in ("async-all-args", "slow", "raising", "extra-default-param") and names[:1] == [f"before_{op}"]:
+    if sub in ("async-all-args", "slow", "raising", "extra-default-param", "required-args") and names[:1] == [f"before_{op}"]:
         for k_ in PARAMS[op]:
             out["named"].setdefault(k_, None)
         S.cover("arguments-checked")
